@@ -5,6 +5,7 @@ import os
 from lib import core, gen
 
 LEVEL = 'other'
+BBH_FEATURES = ['prover', 'oracle']      # harness command families this check needs (fallback build, lib/core.py build_bbh)
 
 _spec = importlib.util.spec_from_file_location('prover_diff', f'{core.VERIF}/tools/prover_diff.py')
 pdiff = importlib.util.module_from_spec(_spec)
